@@ -89,6 +89,8 @@ class Bench:
                 t.columns[a["i"] - 1].width = a["v"]
             elif op == "rowh":
                 t.rows[a["i"] - 1].height = a["v"]
+            elif op == "frame":
+                gf.width, gf.height = a["w"], a["h"]
             else:
                 raise RuntimeError("unknown op " + op)
             return "ok"
@@ -113,6 +115,7 @@ def all_actions(s: dict, sizeacts: bool) -> list[dict]:
     if sizeacts:
         acts += [{"op": "colw", "i": i, "v": v} for i in range(1, C + 1) for v in (1, 40, 914400)]
         acts += [{"op": "rowh", "i": i, "v": v} for i in range(1, R + 1) for v in (3, 370840)]
+        acts += [{"op": "frame", "w": s["fw"] + 11, "h": s["fh"] + 13}, {"op": "frame", "w": 1, "h": 0}]
     return acts
 
 
